@@ -17,7 +17,7 @@ _OUT = os.environ.get("VERIF_OUT", VERIF)
 REPLAYS = os.path.join(_OUT, "replays")
 EVIDENCE = os.path.join(_OUT, "evidence")
 
-MAX_REPORTED = 8
+MAX_REPORTED = int(os.environ.get("VERIF_MAX_REPORTED", "8"))
 EXIT_OK, EXIT_VIOLATION, EXIT_UNDECIDED, EXIT_TOOL = 0, 1, 2, 3
 
 
